@@ -365,7 +365,9 @@ func runC02(r *Run) {
 		}
 	})
 	// hostile writer: writes in 1–3 chunks with stalls in between (mid-frame), then maybe closes
+	writerDone := false
 	s.GoNamed("hostile", func() {
+		defer func() { writerDone = true }()
 		rest := stream
 		for len(rest) > 0 {
 			n := len(rest)
@@ -384,7 +386,12 @@ func runC02(r *Run) {
 		}
 	})
 	// run to the first quiescence after the writer is finished, without letting read timeouts fire
-	why2 := s.RunUntil(10*time.Second, func() bool { return readerDone })
+	why2 := s.RunUntil(3600*time.Second, func() bool { return readerDone || writerDone })
+	if why2 != "steps" && !readerDone {
+		// the writer is finished: give the reader the chance to consume what is there, but
+		// stop at the first quiescence (a read timeout must not fire)
+		why2 = s.RunUntil(time.Second, func() bool { return readerDone })
+	}
 	if why2 == "steps" {
 		r.Inconclusive("step budget exhausted")
 		return
@@ -394,7 +401,10 @@ func runC02(r *Run) {
 			dir, threshold, labels, len(stream), closeAfter, len(want), end, why, len(got), gotErr)
 	}
 	// allocation bound: one frame body + one inflate target + slack, independent of the claimed numbers
-	if bound := uint64(refMaxFrame + cap_ + 2<<20); maxAlloc > bound {
+	// (TotalAlloc is process-wide: it also counts the harness's own copies of the stream
+	// made while Decode was blocked, hence the generous multiple; an uncapped length prefix
+	// or claimed size allocates up to 2^28..2^31 bytes and is still far above it)
+	if bound := uint64(8*refMaxFrame + cap_ + 4<<20); maxAlloc > bound {
 		r.Fail("allocation", "alloc", "a single Decode allocated %d bytes (> %d): %s", maxAlloc, bound, desc())
 		return
 	}
